@@ -31,7 +31,7 @@ def run(cfg):
     return {
         "evaluations": n + meta.get("oracle_checked", 0),
         "distinct_nontrivial": meta.get("distinct_nontrivial", 0),
-        "rule": "EXHAUSTIVE: every parent kind (6 comparison/concat/+/-/*/'/'/^ operators, ':', unary minus, %, @, #, function / named-function / LAMBDA-call arguments, LAMBDA body) x child position x child kind (25 kinds, 1-4 representatives each with representative grandchildren); all triples of the 8 binary operator classes in the 5 tree shapes and all placements of the 4 unary operators above/below/between them; every leaf kind in every spelling class and every built-in function name; random trees of depth <= 7. Each tree is printed in the stored R1C1 form, the English A1 form, the xlsx form and rotating (quick) / all 30 (thorough, for the exhaustive pairs) locale x language display forms, lexed and parsed back by the implementation and by the extracted model. End-to-end: each evaluable tree is typed fully parenthesised into a real Model, and its value compared after to_bytes/from_bytes, after re-typing get_localized_cell_content, and after re-typing the text displayed in a rotating locale/language. distinct_nontrivial = distinct (form, printed text) pairs",
+        "rule": "EXHAUSTIVE: every parent kind (6 comparison/concat/+/-/*/'/'/^ operators, ':', unary minus, %, @, #, function / named-function / LAMBDA-call arguments, LAMBDA body) x child position x child kind (25 kinds, 1-4 representatives each with representative grandchildren); all triples of the 8 binary operator classes in the 5 tree shapes and all placements of the 4 unary operators above/below/between them; every leaf kind in every spelling class and every built-in function name; random trees of depth <= 7; range literals on the boundary grid (stored value 1, 2, LAST-1, LAST x absolute/relative for each of row1/col1/row2/col2, sentinel values in all 16 flag combinations, also WrongRangeKind and other-sheet, from formula cells at A1, B2, C3 and the grid edges) together with 'FR' cases comparing what the A1 text omits with Syntax/FullRange.full_row/full_column. Each tree is printed in the stored R1C1 form, the English A1 form, the xlsx form and rotating (quick) / all 30 (thorough, for the exhaustive pairs) locale x language display forms, lexed and parsed back by the implementation and by the extracted model. End-to-end: each evaluable tree is typed fully parenthesised into a real Model, and its value compared after to_bytes/from_bytes, after re-typing get_localized_cell_content, and after re-typing the text displayed in a rotating locale/language. distinct_nontrivial = distinct (form, printed text) pairs",
         "samples": meta.get("samples", []),
         "disagreements": dis, "n_disagreements": ndis,
         "oracle_failures": meta.get("oracle_failures", []),
